@@ -343,7 +343,14 @@ def run_configs(ctx, pool, configs, cov, st, fid_of=default_fid):
                     continue
                 if o is None:
                     return
-                yield dict(path="both", schema=o["schema"], steps=o["steps"])
+                # every second scenario: its restarts are crashes (the process dies instead of shutting down; ValueStore!Restart
+                # promises the same either way - the values then come back from the log records)
+                gen.n = getattr(gen, "n", 0) + 1
+                steps = o["steps"]
+                if gen.n % 2 == 0:
+                    steps = [dict(s_, crash=True) if s_.get("a") == "restart" else s_ for s_ in steps]
+                    st.crash_restarts = getattr(st, "crash_restarts", 0) + sum(1 for s_ in steps if s_.get("crash"))
+                yield dict(path="both", schema=o["schema"], steps=steps)
 
         def on_result(req, r):
             if stop.is_set():
@@ -513,6 +520,7 @@ def run(ctx):
         pool.close()
 
     cov["text_skipped"] = st.skips
+    cov["restarts_that_were_crashes"] = getattr(st, "crash_restarts", 0)
     cov["executed"] = st.executed
     cov["distinct_puts_accepted"] = len(st.puts["ok"])
     cov["distinct_puts_refused"] = len(st.puts["refused"])
